@@ -283,7 +283,10 @@ def _accept_inverse(name, inv, z, must_be_real):
         try:
             back = inv.forward(w)
             d = abs(inv.deriv(w))
-            tol = 1e-9 * abs(zc) + d * 1e-15 * max(1.0, abs(w)) + TINY
+            # conditioning allowance |f'(w)| * rounding of w -- but capped: next to a pole of the forward function
+            # f' is so large that the allowance would accept ANY w there (arcsec(2) = pi/2: sec'(pi/2) ~ 1e32).
+            # A genuinely ill-conditioned case beyond the cap is decided by the saturated fallback below.
+            tol = 1e-9 * abs(zc) + min(d * 1e-15 * max(1.0, abs(w)), 1e-3 * abs(zc) + 1e-12) + TINY
             if abs(back - zc) <= tol:
                 return None
             why = 'forward function applied to the returned %r gives %r, not the argument %r' % (res, back, z)
